@@ -371,17 +371,38 @@ K("C14.K.builtin.ranges", C14M, "verif_c14::b_ranges", {"C14": "D"}, fns=["postc
   note="field names and order of the range structs", **SCH)
 K("C14.K.builtin.str_slices", C14M, "verif_c14::b_str_slices", {"C14": "D"}, label="bounded(len<=2)",
   fns=["postcard_schema::impls::<impl Schema for str, [T], heapless::Vec, heapless::String>"], **SCH)
+K("C14.K.builtin.collection_shapes", C14M, "verif_c14::b_collection_shapes", {"C14": "S"}, label="bounded(shape of the constant only)",
+  fns=["postcard_schema::impls::<impl Schema for Vec, String, BTreeMap, HashMap, BTreeSet, HashSet, heapless::Vec, heapless::String>"],
+  note="constant has the shape Seq(T)/Map{K,V}/String with marker elements; the serialisation side of these collections rests on A-serde", **SCH)
 K("C14.K.builtin.key", C14M, "verif_c14::b_key", {"C14": "D"}, fns=["postcard_schema::key::<impl Schema for Key>"], **SCH)
 K("C14.K.derive.structs", C14M, "verif_c14::d_structs", {"C14": "D"}, label="bounded(corpus)", fns=["postcard_derive::schema (derive output)"],
   note="#[derive(Schema, Serialize)] corpus: unit, newtype, tuple, named, generic, lifetime structs; bounded stand-in, not counted as proved", **SCH)
-K("C14.K.derive.enum", C14M, "verif_c14::d_enum", {"C14": "D"}, label="bounded(corpus)", fns=["postcard_derive::schema (derive output)"],
-  note="derive corpus: enum with unit / newtype / tuple / struct variants, symbolic payloads", **SCH)
-C16W = "postcard-schema/src/key/hash.rs::verif_c16"
-for k in ["leaves", "nest", "structs", "enum"]:
-    K("C16.K.hash.witness." + k, C16W, "verif_c16::witness_" + k, {"C16": "D"}, label="bounded(corpus tree)",
-      fns=[HS + "fnv1a64::hash_ty_path", HS + "fnv1a64_owned::hash_ty_path_owned", "postcard_schema::schema::owned::<impl From<&DataModelType> for OwnedDataModelType>"],
-      note="compile-time key == run-time key == FNV-1a(path ++ reference tag stream).to_le_bytes() on a corpus tree covering every tag of this class; gives concrete failing trees; discharges the dropped to_le_bytes (D3') and the T::SCHEMA stub (D10)", **SCH)
-# the witness stands behind every V obligation of the hashers
+for v in ["unit", "newtype"]:
+    K("C14.K.derive.enum_" + v, C14M, "verif_c14::d_enum_" + v, {"C14": "D"}, label="bounded(corpus)", fns=["postcard_derive::schema (derive output)"],
+      note="derive corpus: enum variant form with symbolic payload", **SCH)
+# C16: no Kani obligation. CBMC does not constant-propagate through the &'static schema references and unwinds the recursive
+# hashers over all 26 kinds at every level (no verdict even for depth-2 concrete trees in 5 min, measured). The Route-V stubs
+# D10 (T::SCHEMA read) and D3' (final to_le_bytes) are therefore listed as trusted in the evidence.
+
+# ---------------------------------------------------------------- C15 borrowed vs owned schema (lives in postcard-dyn: needs postcard + postcard-schema)
+C15M = "postcard-dyn/src/lib.rs::verif_c15"
+for k in ["leaves_a", "leaves_b", "option", "seq", "map", "struct_unit", "struct_newtype", "struct_tuple", "struct_struct", "enum", "nest"]:
+    K("C15.K.from." + k, C15M, "verif_c15::k_" + k, {"C15": "D"}, label="bounded(one concrete tree per node kind, depth<=3)",
+      fns=["postcard_schema::schema::owned::<impl From<&DataModelType> for OwnedDataModelType>", "postcard_schema::schema::owned::<impl From<&Data> for OwnedData>",
+           "postcard_schema::schema::owned::<impl From<&NamedField> for OwnedNamedField>", "postcard_schema::schema::owned::<impl From<&Variant> for OwnedVariant>",
+           "serde_derive output for DataModelType / OwnedDataModelType (wire indices)"],
+      note="wire(borrowed) == wire(owned conversion); from_bytes::<Owned>(wire) == conversion; conversion structurally identical", **DYN)
+
+# ---------------------------------------------------------------- accumulator Kani witnesses
+ACCK = "postcard/src/accumulator.rs::verif_acc"
+K("C08.K.stub.position_zero", ACCK, "verif_acc::position_zero_spec", {"C08": "S", "C09": "S"}, label="bounded(slice<=8)",
+  note="discharges the Route-V stub D4 (iter().position(|&i| i == 0) == first zero) for slices up to 8")
+K("C08.K.acc.small", ACCK, "verif_acc::acc_small", {"C08": "D"}, label="bounded(N=4, stream<=5, 2 chunks)", fns=ACCF + ["postcard::accumulator::CobsAccumulator::feed"],
+  note="real accumulator + documented loop vs isolated decoding of each segment, every stream <= 5 bytes, every 2-cut; concrete failing histories")
+K("C09.K.acc.garbage_then_frame", ACCK, "verif_acc::acc_garbage_then_frame", {"C09": "D"}, label="bounded(N=4, garbage<=5)", fns=ACCF,
+  note="any garbage incl. over-long segments: no panic, idx in bounds; after a zero byte a well-formed frame is delivered; loop progress guard")
 for o in OBLIGATIONS:
-    if o["id"].startswith("C16.V.hash.") and not o.get("witness"):
-        o["witness"] = "C16.K.hash.witness.*"
+    if o["id"].startswith("C08.V.acc.feed_ref.") and o["props"].get("C08") == "D":
+        o["witness"] = "C08.K.acc.small"
+    if o["id"].startswith("C09.V.acc.feed_ref."):
+        o["witness"] = "C09.K.acc.garbage_then_frame"
